@@ -82,6 +82,43 @@ def dumpOk (cap : Nat) (d : Dump) : Bool :=
   decide (d.size ≤ cap) && d.size == total d.filo && d.len == d.filo.length &&
   nodupKeys (d.filo.map (·.key)) && d.keys == sortNat (d.filo.map (·.key)) && d.rev
 
+/-- The C16 step clauses on one sequential operation, from what the cache
+itself reported: the operation's result and the quiescent observations before
+(`d1`) and after (`d2`) it.  `none` = fine, `some shape` = violated.  They say,
+without reference to the model: a lookup returns the value most recently stored
+under the key and only refreshes it; a stored entry becomes the most recent one
+and only the key's old entry and a tail of least-recently-used entries may go;
+a delete removes exactly its key; an operation that fails changes nothing.
+(Not evaluated while an entry whose `Size()` fails is resident: the harness's
+fault injection, under which a failing eviction may legitimately stop half-way.) -/
+def obsClause (bad : List Nat) (op : Op) (out : Out) (d1 d2 : Dump) : Option String :=
+  if d1.filo.any (fun e => bad.contains e.vid) then none else
+  match op, out with
+  | .put _ _ _, .err => if d2 == d1 then none else some "failed-put-changed-cache"
+  | .put k vid sz, .okPut _ =>
+    let rest := d1.filo.filter (fun e => e.key != k)
+    match d2.filo with
+    | e :: kept =>
+      if e == ⟨k, vid, sz⟩ && kept.isPrefixOf rest then none else some "evicted-not-lru"
+    | [] => some "stored-entry-missing"
+  | .get k, .val v =>
+    match d1.filo.find? (fun e => e.key == k) with
+    | some e =>
+      if e.vid == v && d2.filo == e :: d1.filo.filter (fun e => e.key != k) then none else some "lookup-wrong-value"
+    | none => some "lookup-wrong-value"
+  | .get k, .notFound =>
+    if d1.filo.any (fun e => e.key == k) then some "lookup-lost"
+    else if d2 == d1 then none else some "lookup-changed-cache"
+  | .del k, .val v =>
+    match d1.filo.find? (fun e => e.key == k) with
+    | some e =>
+      if e.vid == v && d2.filo == d1.filo.filter (fun e => e.key != k) then none else some "delete-wrong-entry"
+    | none => some "delete-wrong-entry"
+  | .del k, .no =>
+    if d1.filo.any (fun e => e.key == k) then some "delete-missed"
+    else if d2 == d1 then none else some "delete-changed-cache"
+  | _, _ => none
+
 def dumpOfSpec (sp : Spec) : Dump :=
   { size := total sp.items, len := sp.items.length, filo := sp.items.reverse,
     keys := sortNat (sp.items.map (·.key)), rev := true }
